@@ -39,7 +39,7 @@ func debugCount(scn, cfgn, mode string) int {
 	case "strace":
 		l = Launch{Mode: Strace, Log: logPath}
 	}
-	w, at, err := runScenario(sc, cfg, filepath.Join(base, "s"), filepath.Join(base, "w"), 1, l, func(f string, a ...any) { fmt.Printf("| "+f+"\n", a...) })
+	w, at, err := runScenario(sc, cfg, filepath.Join(base, "s"), filepath.Join(base, "w"), 1, l, "", false, func(f string, a ...any) { fmt.Printf("| "+f+"\n", a...) })
 	if w != nil {
 		w.Close()
 	}
